@@ -1,4 +1,5 @@
 import PkgProofs.Props.C08
+import PkgProofs.Props.C12Scan
 /-!
 # C12, last sentence — a clause inside a requirement string and `Specifier`
 
@@ -98,6 +99,31 @@ theorem rejected_clause_rejects_requirement (src : Str) (P : Parsed) (hP : parse
   obtain ⟨sps, hall, _⟩ := mkSpecSet_inv _ _ hs
   have hnone : SSet.parseAll (SSet.clauses P.specifier) = none := parseAll_none_of_mem hc hn
   exact absurd (hnone.symm.trans hall) (by simp)
+
+/-- … stated with the pattern regenerated from the working tree: a piece of the collected clause text that
+`Specifier._regex` (as `Gen.SpecifierRx.rx`, through the verified matcher) does not accept makes `Requirement(src)` raise -/
+theorem source_regex_rejects_then_requirement_rejects (src : Str) (P : Parsed) (hP : parseSource src = .ok P) (c : Str)
+    (hc : c ∈ SSet.clauses P.specifier) (hu : ∀ cp ∈ c, cp < 0x110000)
+    (hr : Rx.accepts Gen.SpecifierRx.ranges Gen.SpecifierRx.rx c = false) : ∀ r, Req.parse src ≠ .ok r := by
+  have h := C12.parseSpec_accepts_iff_source_regex c hu
+  rw [hr] at h
+  have hn : S.parseSpec c = none := by
+    cases hp : S.parseSpec c with
+    | none => rfl
+    | some sp => rw [hp] at h; cases h
+  exact rejected_clause_rejects_requirement src P hP c hc hn
+
+/-- … and every member of an accepted requirement was read from a piece the regenerated pattern accepts -/
+theorem requirement_members_match_source_regex (src : Str) (r : Requirement) (h : Req.parse src = .ok r) :
+    ∃ P, parseSource src = .ok P ∧ ∀ sp ∈ r.spec, ∃ c ∈ SSet.clauses P.specifier, S.parseSpec c = some sp ∧
+      ((∀ cp ∈ c, cp < 0x110000) → Rx.accepts Gen.SpecifierRx.ranges Gen.SpecifierRx.rx c = true) := by
+  obtain ⟨P, hP, hm⟩ := requirement_members_are_specifier_clauses src r h
+  refine ⟨P, hP, fun sp hsp => ?_⟩
+  obtain ⟨c, hc, hp⟩ := hm sp hsp
+  refine ⟨c, hc, hp, fun hu => ?_⟩
+  have := C12.parseSpec_accepts_iff_source_regex c hu
+  rw [hp] at this
+  exact this.symm
 
 /-! the hypotheses are satisfiable: `name >= 1.0` / `name ( ~= 1.0a1 )`, and a rejected piece -/
 def exCl : Cl := ⟨.ge, [32], ofString "1.0"⟩
